@@ -206,6 +206,37 @@ def check_multi(ctx, texts, dtexts, zp=None):
         if r["code"] != base["code"]:
             ctx.violation("%s:exit" % cfg, "exit %s vs structured-JSON baseline %s (file statuses %s)" % (r["code"], base["code"], statuses), dict(case, cfg=cfg))
             continue
+        if cfg.endswith("junit"):
+            # one <testsuite> per data file: its failures=/errors= attributes count ITS OWN cases, and it has a failing case iff
+            # the structured report of that data file is FAIL
+            try:
+                root = ET.fromstring(r["out"])
+            except ET.ParseError as e:
+                ctx.violation("%s:malformed" % cfg, "JUnit output is not well-formed XML: %s" % str(e)[:100], dict(case, cfg=cfg))
+                continue
+            suites = root.findall("./testsuite")
+            if len(suites) != len(reps):
+                ctx.violation("%s:suite-count" % cfg, "%d testsuite elements for %d data files" % (len(suites), len(reps)), dict(case, cfg=cfg))
+                continue
+            bad = None
+            for su, rep in zip(suites, reps):
+                nf = sum(1 for tc in su.findall("./testcase") if tc.find("failure") is not None)
+                ne = sum(1 for tc in su.findall("./testcase") if tc.find("error") is not None)
+                ctx.res.counts["junit_suites_checked"] += 1
+                if str(nf) != su.get("failures") or str(ne) != su.get("errors"):
+                    bad = ("suite-counters", "testsuite %s says failures=%s errors=%s but holds %d failing and %d erroring cases" % (
+                        str(su.get("name")).rsplit("/", 1)[-1], su.get("failures"), su.get("errors"), nf, ne))
+                elif (nf > 0) != (rep.get("status") == "FAIL"):
+                    bad = ("suite-vs-file-status", "testsuite %s has %d failing cases but the structured report of that data file is %s" % (
+                        str(su.get("name")).rsplit("/", 1)[-1], nf, rep.get("status")))
+                if bad:
+                    break
+            tot_f = sum(1 for tc in root.findall("./testsuite/testcase") if tc.find("failure") is not None)
+            if not bad and (root.get("failures") != str(tot_f) or root.get("tests") != str(len(root.findall("./testsuite/testcase")))):
+                bad = ("total-counters", "testsuites says tests=%s failures=%s but holds %d cases, %d failing" % (root.get("tests"), root.get("failures"), len(root.findall("./testsuite/testcase")), tot_f))
+            if bad:
+                ctx.violation("%s:%s" % (cfg, bad[0]), bad[1], dict(case, cfg=cfg))
+                continue
         if cfg in ("multi:payload-structured",):
             try:
                 preps = json.loads(r["out"])
